@@ -8,6 +8,7 @@ import dataclasses
 import keyword
 import logging
 import re
+from enum import Enum
 from typing import Any, Set, Type, TypeVar, cast
 
 logger = logging.getLogger(__name__)
@@ -436,6 +437,11 @@ class DataclassSerializer:
             Serialised object with all dataclasses converted to dicts
         """
         from .cattrs_converter import unstructure_to_dict
+
+        # Enum members first: a `(str, Enum)` / `(int, Enum)` member is also an instance of str / int and would
+        # otherwise be passed on as it is (interpolated into a URL or a query string it reads `Status.ON`)
+        if isinstance(obj, Enum):
+            return obj.value
 
         # Handle primitives early (no tracking needed)
         if obj is None or isinstance(obj, (str, int, float, bool)):
